@@ -1,6 +1,7 @@
 //! C17: rewrite rules and layered configuration resolve as documented.
 //! Lists of YAML documents -> load_from_yaml -> ConfigSet::select; then CSV records through
 //! import::import under the selected entry and Txn::to_double_entry.
+use crate::camtgen;
 use crate::coq::{self, Shards, Stats};
 use crate::impgen::*;
 use crate::prng::Rng;
@@ -197,7 +198,63 @@ pub fn gen_case(r: &mut Rng) -> Case17 {
         let at2 = at2.min(docs[di].rewrite.len());
         docs[di].rewrite.insert(at2, b);
     }
+    let mut rows = rows;
+    if r.chance(1, 5) {
+        repeat_parent_rule(r, &mut docs, &file, &mut rows);
+    }
     Case17 { docs, path: file, layout, header, rows }
+}
+
+/// Two layered documents (a shorter and a longer path, both occurring in the file path) where the
+/// longer-path document repeats a rule of the shorter-path one verbatim at a later position, with
+/// a rule in between that rewrites the payee so that the second occurrence matters:
+///   parent [A: ^w1 (?P<payee>.*)$]   child [B: ^w2 (?P<payee>.*)$, A, C: ^w3$ -> account]
+/// and a record whose payee is "w2 w1 w3": B makes it "w1 w3", the repeated A makes it "w3", C books
+/// it.  The merged rule list is the concatenation - a repeated rule is applied again.
+fn repeat_parent_rule(r: &mut Rng, docs: &mut Vec<Doc>, file: &str, rows: &mut [Row]) {
+    while docs.len() < 2 {
+        docs.push(gen_doc(r, file, false));
+    }
+    let mut idx: Vec<usize> = (0..docs.len()).collect();
+    r.shuffle(&mut idx);
+    let (pi, ci) = (idx[0], idx[1]);
+    // two substrings of the file path on character boundaries, the parent's shorter (or as long
+    // and earlier in the file: the sort is stable)
+    let b = file.len();
+    let l1 = r.below(4) as usize;
+    let l2 = (l1 + r.below(5) as usize).max(if pi < ci { l1 } else { l1 + 1 }).min(b);
+    let l1 = l1.min(l2);
+    let a1 = r.below((b - l1 + 1) as u64) as usize;
+    let a2 = r.below((b - l2 + 1) as u64) as usize;
+    if !(file.is_char_boundary(a1) && file.is_char_boundary(a1 + l1) && file.is_char_boundary(a2) && file.is_char_boundary(a2 + l2)) {
+        return;
+    }
+    docs[pi].path = file[a1..a1 + l1].to_string();
+    docs[ci].path = file[a2..a2 + l2].to_string();
+    let mut ws = ["Migros", "Coop", "Card", "ATM", "Shop", "Cafe", "Rent", "Debit"].to_vec();
+    r.shuffle(&mut ws);
+    let (w1, w2, w3) = (ws[0], ws[1], ws[2]);
+    let anchored = r.chance(4, 5);
+    let strip = |w: &str| Pat { start: anchored, items: vec![Item::Plain(Atom::Lit(format!("{} ", w))), Item::Payee(Atom::Rest)], end: anchored, valid: true };
+    let as_list = r.chance(1, 3);
+    let a = Rule { matcher: vec![vec![(RF_PAYEE, strip(w1))]], as_list, pending: r.chance(1, 4), payee: None, account: if r.chance(1, 4) { Some(r.pick(&ACCOUNTS).to_string()) } else { None }, conversion: None };
+    let bb = Rule { matcher: vec![vec![(RF_PAYEE, strip(w2))]], as_list: r.chance(1, 3), pending: false, payee: None, account: None, conversion: None };
+    let c = Rule { matcher: vec![vec![(RF_PAYEE, Pat { start: true, items: vec![Item::Plain(Atom::Lit(w3.to_string()))], end: true, valid: true })]], as_list: false, pending: r.chance(1, 4), payee: None, account: Some(r.pick(&ACCOUNTS).to_string()), conversion: None };
+    let at = r.below(docs[pi].rewrite.len() as u64 + 1) as usize;
+    docs[pi].rewrite.insert(at, a.clone());
+    // the child: B, then A once more (now and then not quite verbatim), then C, other rules between
+    let mut again = a;
+    if r.chance(1, 8) {
+        again.pending = !again.pending;
+    }
+    let n = docs[ci].rewrite.len();
+    let mut pos: Vec<usize> = (0..3).map(|_| r.below(n as u64 + 1) as usize).collect();
+    pos.sort();
+    docs[ci].rewrite.insert(pos[2], c);
+    docs[ci].rewrite.insert(pos[1], again);
+    docs[ci].rewrite.insert(pos[0], bb);
+    let k = r.below(rows.len() as u64) as usize;
+    rows[k].fields[1] = format!("{} {} {}", recase(r, w2), recase(r, w1), recase(r, w3));
 }
 
 /// how many rules hit a record, following the fold (statistics only)
@@ -308,6 +365,15 @@ pub fn emit(sh: &mut Shards, st: &mut Stats, c: &Case17, tag: &str) {
             }
         }
     }
+    {
+        // the documents that apply, in merge order; does a later one repeat a rule it inherits?
+        let mut m: Vec<&Doc> = c.docs.iter().filter(|d| c.path.contains(&d.path)).collect();
+        m.sort_by_key(|d| d.path.len());
+        let repeated = (1..m.len()).any(|j| m[j].rewrite.iter().any(|rule| m[..j].iter().any(|d| d.rewrite.contains(rule))));
+        if repeated {
+            st.count("layered:a longer-path document repeats an inherited rule verbatim");
+        }
+    }
     st.count(&format!("max_rules_hitting_a_record:{}", max_hits.min(4)));
     if empty_caps > 0 && matches!(imp, ImpObs::Ok(..)) {
         st.count("cases_with_a_named_group_matching_empty");
@@ -360,9 +426,367 @@ pub fn emit(sh: &mut Shards, st: &mut Stats, c: &Case17, tag: &str) {
     sh.push(term, vec![rep]);
 }
 
-pub const HEADER: &str = "From Coq Require Import List NArith ZArith QArith Qcanon.\nFrom Okv Require Import Base.Dec Model.ImpConfig Model.ImpExtract Model.ImpSingleEntry Model.ImpCsv Run.ImpPattern Run.ImpCase";
 
-fn corpus_cases(o: &Opts) -> (Vec<Case17>, bool) {
+// ---------------------------------------------------------------- Camt053 records
+
+/// A Camt053 run: configuration documents whose rules look at the party / information fields of
+/// the statement's records, and one small statement.
+#[derive(Clone, Debug, Serialize, Deserialize)]
+pub struct Case17Camt {
+    pub docs: Vec<Doc>,
+    pub path: String,
+    pub stmt: camtgen::Statement,
+    /// shapes the generator built on purpose (statistics)
+    #[serde(default)]
+    pub tags: Vec<String>,
+}
+
+const C_NAMES: [&str; 7] = ["Landlord AG", "Migros", "Coop City", "Jiro Okane", "山田 商店", "ACME Corp 42", "Okane Bank"];
+const C_INFOS: [&str; 8] = ["Payment order 42", "Standing order 7", "Card 1234 Migros", "Salary 2024", "rent February", "Invoice 77 Coop", "Okane Pay Cafe 0400", "ATM 55 Zurich"];
+const C_IDS: [&str; 4] = ["CH9300762011623852957", "12345-6", "DE02120300000000202051", "A-77"];
+
+/// the texts of one record by RewriteField code (3..=11)
+fn record_texts(e: &camtgen::Entry, d: Option<&camtgen::Detail>) -> Vec<(usize, String)> {
+    let mut v: Vec<(usize, String)> = Vec::new();
+    if let Some(d) = d {
+        if let Some(p) = &d.parties {
+            for (k, t) in [(3, &p.creditor), (4, &p.creditor_account), (5, &p.ultimate_creditor), (6, &p.debtor), (7, &p.debtor_account), (8, &p.ultimate_debtor), (9, &p.remittance)] {
+                if let Some(t) = t {
+                    v.push((k, t.clone()));
+                }
+            }
+        }
+    }
+    v.push((10, e.info.clone()));
+    if let Some(d) = d {
+        if let Some(i) = &d.info {
+            v.push((11, i.clone()));
+        }
+    }
+    v
+}
+
+/// a pattern for a field whose text in the target record is `text` (None: the field is absent)
+fn gen_camt_pat(r: &mut Rng, text: Option<&str>, hit: bool, capture: u64) -> Pat {
+    let other = if r.chance(1, 2) { *r.pick(&C_NAMES) } else { *r.pick(&C_INFOS) };
+    let t = if hit { text.unwrap_or(other) } else { other };
+    let words: Vec<&str> = t.split(' ').filter(|w| !w.is_empty()).collect();
+    let w = |r: &mut Rng| {
+        let x = *r.pick(&words);
+        recase(r, x)
+    };
+    let first = words[0].to_string();
+    let lit = |s: String| Item::Plain(Atom::Lit(s));
+    let miss = if hit { None } else { Some(lit(format!("{}#", first))) };
+    let mut p = match capture {
+        // no capture
+        0 => Pat { start: false, items: vec![lit(w(r))], end: false, valid: true },
+        // the whole field as the payee
+        1 => Pat { start: r.chance(1, 2), items: vec![Item::Payee(Atom::Rest)], end: r.chance(1, 2), valid: true },
+        // what follows the first word
+        2 => Pat { start: true, items: vec![lit(format!("{} ", first)), Item::Payee(Atom::Rest)], end: r.chance(1, 2), valid: true },
+        // the first run of digits as the code
+        3 => Pat { start: false, items: vec![Item::Code(Atom::Digits)], end: false, valid: true },
+        // a word as the payee, digits after it as the code
+        4 => Pat { start: false, items: vec![Item::Payee(Atom::Lit(w(r))), Item::Plain(Atom::Rest), Item::Code(Atom::Digits0)], end: false, valid: true },
+        // payee and code in one field: "Card (?P<code>[0-9]+) (?P<payee>.*)"
+        _ => Pat { start: false, items: vec![lit(format!("{} ", first)), Item::Code(Atom::Digits), lit(" ".into()), Item::Payee(Atom::Rest)], end: false, valid: true },
+    };
+    if let Some(m) = miss {
+        // a literal that occurs in no text of the vocabulary
+        p.items.insert(0, m);
+    }
+    p
+}
+
+fn gen_camt_and(r: &mut Rng, texts: &[(usize, String)], hit: bool, nfields: usize, capturing: bool) -> Vec<(usize, Pat)> {
+    let mut fields: Vec<usize> = if hit { texts.iter().map(|x| x.0).collect() } else { (3..=11).collect() };
+    r.shuffle(&mut fields);
+    fields.truncate(nfields.max(1));
+    let miss_at = if hit { usize::MAX } else { r.below(fields.len() as u64) as usize };
+    fields
+        .iter()
+        .enumerate()
+        .map(|(i, f)| {
+            let text = texts.iter().find(|x| x.0 == *f).map(|x| x.1.as_str());
+            let cap = if capturing { *r.pick(&[0u64, 1, 1, 2, 2, 1, 2, 3, 4, 5, 0, 1]) } else { 0 };
+            (*f, gen_camt_pat(r, text, i != miss_at && text.is_some(), cap))
+        })
+        .collect()
+}
+
+fn gen_camt_rule(r: &mut Rng, texts: &[(usize, String)], tags: &mut Vec<String>) -> Rule {
+    let account = if r.chance(3, 5) { Some(r.pick(&ACCOUNTS).to_string()) } else { None };
+    let mut matcher: Vec<Vec<(usize, Pat)>> = Vec::new();
+    let as_list;
+    if r.chance(2, 5) && texts.len() >= 2 {
+        // an OR-list whose first element captures in a field early in RewriteField order and
+        // then fails on a later field; a later element matches: the first element's captures
+        // must not be seen by the later elements nor end up in the result
+        let mut present: Vec<usize> = texts.iter().map(|x| x.0).collect();
+        present.sort();
+        let i = r.below(present.len() as u64 - 1) as usize;
+        let early = present[i];
+        let late = *r.pick(&present[i + 1..]);
+        let text_of = |f: usize| texts.iter().find(|x| x.0 == f).map(|x| x.1.as_str());
+        let cap = *r.pick(&[1u64, 2, 1, 2, 1, 2, 4, 5]);
+        let mut first = vec![(early, gen_camt_pat(r, text_of(early), true, cap)), (late, gen_camt_pat(r, text_of(late), false, 0))];
+        if r.chance(1, 3) {
+            // a third field between or after them
+            let extra: Vec<usize> = present.iter().copied().filter(|f| *f != early && *f != late).collect();
+            if !extra.is_empty() {
+                let f = *r.pick(&extra);
+                let cap = *r.pick(&[0u64, 1, 3]);
+                first.push((f, gen_camt_pat(r, text_of(f), true, cap)));
+            }
+        }
+        matcher.push(first);
+        if r.chance(1, 4) {
+            let nf = 1 + r.below(2) as usize;
+            matcher.push(gen_camt_and(r, texts, false, nf, true));
+        }
+        // the element that matches: often without a capture of its own, or reading the payee
+        let second = if r.chance(1, 4) {
+            vec![(RF_PAYEE, Pat { start: false, items: vec![Item::Plain(Atom::Rest)], end: false, valid: true })]
+        } else {
+            let nf = 1 + r.below(2) as usize;
+            let capturing = r.chance(1, 3);
+            gen_camt_and(r, texts, true, nf, capturing)
+        };
+        matcher.push(second);
+        as_list = true;
+        tags.push("or_list:an element captures, then fails on a later field; a later element matches".into());
+    } else {
+        let n = if r.chance(1, 2) { 1 } else { 1 + r.below(3) as usize };
+        for _ in 0..n {
+            let hit = r.chance(2, 3);
+            let nf = 1 + r.below(3) as usize;
+            matcher.push(gen_camt_and(r, texts, hit, nf, true));
+        }
+        as_list = n > 1 || r.chance(1, 3);
+    }
+    // the order the fields are written in does not matter to the importer (a map): shuffled here
+    for a in matcher.iter_mut() {
+        r.shuffle(a);
+        if a.len() >= 2 && a.iter().filter(|(_, p)| p.items.iter().any(|i| !matches!(i, Item::Plain(_)))).count() >= 2 {
+            tags.push("and_list:two or more capturing fields".into());
+        }
+    }
+    Rule { matcher, as_list, pending: r.chance(1, 3), payee: if r.chance(1, 6) { Some(gen_payee_text(r)) } else { None }, account, conversion: None }
+}
+
+/// a rule on the accumulated payee: tells what the earlier rules left there
+fn gen_payee_followup(r: &mut Rng) -> Rule {
+    let w = if r.chance(1, 2) { *r.pick(&C_NAMES) } else { *r.pick(&C_INFOS) };
+    let words: Vec<&str> = w.split(' ').collect();
+    let word = *r.pick(&words);
+    let word = recase(r, word);
+    Rule {
+        matcher: vec![vec![(RF_PAYEE, Pat { start: r.chance(1, 4), items: vec![Item::Plain(Atom::Lit(word))], end: false, valid: true })]],
+        as_list: false,
+        pending: r.chance(1, 4),
+        payee: None,
+        account: Some(r.pick(&ACCOUNTS).to_string()),
+        conversion: None,
+    }
+}
+
+pub fn gen_camt_case(r: &mut Rng) -> Case17Camt {
+    use camtgen::*;
+    let file = (*r.pick(&FILE_PATHS)).to_string();
+    let ccy = "CHF".to_string();
+    let amt = |m: u64| XAmt { v: Dec { neg: false, m, scale: 2, bare_dot: false }, ccy: ccy.clone() };
+    let pick_opt = |r: &mut Rng, pool: &[&str], num: u64, den: u64| -> Option<String> { if r.chance(num, den) { Some(r.pick(pool).to_string()) } else { None } };
+    let n_entries = 1 + r.below(3) as usize;
+    let mut entries = Vec::new();
+    let mut k = 0;
+    for _ in 0..n_entries {
+        k += 1;
+        let credit = r.chance(2, 5);
+        let booking = XDate { y: 2024, m: 1 + r.below(12) as u32, d: 1 + r.below(28) as u32, dttm: None };
+        let nd = *r.pick(&[0usize, 1, 1, 2]);
+        let mut details = Vec::new();
+        let mut sum = 0u64;
+        for j in 0..nd {
+            let m = 1 + r.below(500_000);
+            sum += m;
+            let parties = Parties {
+                creditor: pick_opt(r, &C_NAMES, 3, 5),
+                creditor_account: pick_opt(r, &C_IDS, 1, 4),
+                ultimate_creditor: pick_opt(r, &C_NAMES, 1, 4),
+                debtor: pick_opt(r, &C_NAMES, 2, 5),
+                debtor_account: pick_opt(r, &C_IDS, 1, 5),
+                ultimate_debtor: pick_opt(r, &C_NAMES, 1, 4),
+                remittance: pick_opt(r, &C_INFOS, 3, 5),
+                nested: r.chance(1, 3),
+                iban: r.chance(1, 2),
+            };
+            details.push(Detail {
+                reference: if r.chance(2, 3) { Some(format!("2024/{}/{}", k, j + 1)) } else { None },
+                amt: amt(m),
+                credit,
+                details: None,
+                charges: None,
+                info: pick_opt(r, &C_INFOS, 4, 5),
+                frag: Frag::default(),
+                parties: Some(parties),
+            });
+        }
+        let m = if nd == 0 { 1 + r.below(500_000) } else { sum };
+        entries.push(Entry {
+            amt: amt(m),
+            credit,
+            booking,
+            value: None,
+            charges: None,
+            dtls_element: nd > 0,
+            details,
+            info: r.pick(&C_INFOS).to_string(),
+            frag: Frag::default(),
+            batch: if r.chance(1, 4) && nd > 0 { BatchHdr::Absent } else { BatchHdr::Consistent },
+        });
+    }
+    let stmt = Statement { balances: vec![Balance { opening: false, amt: amt(1 + r.below(900_000)), credit: true }], entries };
+    // the records the rules are aimed at
+    let mut recs: Vec<Vec<(usize, String)>> = Vec::new();
+    for e in &stmt.entries {
+        if e.details.is_empty() {
+            recs.push(record_texts(e, None));
+        }
+        for d in &e.details {
+            recs.push(record_texts(e, Some(d)));
+        }
+    }
+    let mut tags = Vec::new();
+    let n_rules = 1 + r.below(4) as usize;
+    let mut rules: Vec<Rule> = Vec::new();
+    for _ in 0..n_rules {
+        let target = r.pick(&recs).clone();
+        rules.push(gen_camt_rule(r, &target, &mut tags));
+        if r.chance(1, 3) {
+            rules.push(gen_payee_followup(r));
+        }
+    }
+    if r.chance(1, 40) {
+        // a field the Camt053 importer does not know, or a regex that does not compile
+        let bad = if r.chance(1, 2) { (RF_CATEGORY, Pat::lit("Food")) } else { (3, Pat { start: false, items: vec![], end: false, valid: false }) };
+        let k = r.below(rules.len() as u64) as usize;
+        // a map: one pattern per field
+        rules[k].matcher[0].retain(|(f, _)| *f != bad.0);
+        rules[k].matcher[0].push(bad);
+        tags.push("rules:a matcher the Camt053 importer refuses".into());
+    }
+    // one or two layered documents: the settings in the first, the rules split between them
+    let mut d0 = Doc {
+        path: { let l = r.below(5) as usize; let a = r.below((file.len() - l + 1) as u64) as usize; if file.is_char_boundary(a) && file.is_char_boundary(a + l) { file[a..a + l].to_string() } else { String::new() } },
+        encoding: Some(0),
+        account: Some(r.pick(&SRC_ACCOUNTS).to_string()),
+        liability: Some(false),
+        operator: None,
+        commodity: Some(Commodity::Primary("CHF".into())),
+        format: if r.chance(1, 2) { Some(Format { date: String::new(), precisions: vec![], fields: vec![], delimiter: String::new(), skip: 0, new_to_old: r.chance(1, 2) }) } else { None },
+        rewrite: Vec::new(),
+    };
+    let mut docs = Vec::new();
+    if rules.len() >= 2 && r.chance(1, 2) {
+        let cut = 1 + r.below(rules.len() as u64 - 1) as usize;
+        let later = rules.split_off(cut);
+        d0.rewrite = rules;
+        let l = d0.path.len() + 1 + r.below(4) as usize;
+        let l = l.min(file.len());
+        let a = r.below((file.len() - l + 1) as u64) as usize;
+        let path = if file.is_char_boundary(a) && file.is_char_boundary(a + l) { file[a..a + l].to_string() } else { file.clone() };
+        let d1 = Doc { path, encoding: None, account: None, liability: None, operator: None, commodity: None, format: None, rewrite: later };
+        if r.chance(1, 3) {
+            docs.push(d1);
+            docs.push(d0);
+        } else {
+            docs.push(d0);
+            docs.push(d1);
+        }
+    } else {
+        d0.rewrite = rules;
+        docs.push(d0);
+    }
+    tags.sort();
+    tags.dedup();
+    Case17Camt { docs, path: file, stmt, tags }
+}
+
+fn entity_term(texts: &[(usize, String)], reference: &Option<String>, debit: bool) -> String {
+    format!("CE {} {} {}", coq::list(texts.iter().map(|(k, t)| format!("({}, {})", k, s_term(t)))), os_term(reference), coq::bool_(debit))
+}
+
+pub fn emit_camt(sh: &mut Shards, st: &mut Stats, c: &Case17Camt, tag: &str) {
+    let yaml = docs_yaml(&c.docs);
+    let pats = collect_pats(&c.docs);
+    let sel = run_select(&yaml, &c.path);
+    let xml = camtgen::xml(std::slice::from_ref(&c.stmt));
+    let imp = match &sel {
+        SelObs::Ok(e) => run_import_fmt(&xml, okane::import::Format::IsoCamt053, e),
+        _ => ImpObs::NotRun,
+    };
+    let matching_docs = c.docs.iter().filter(|d| c.path.contains(&d.path)).count();
+    let nontrivial = matches!(imp, ImpObs::Ok(..)) && c.docs.iter().any(|d| d.rewrite.iter().any(|r| r.matcher.len() >= 2 || r.matcher.iter().any(|a| a.len() >= 2)));
+    st.eval(&(yaml.clone(), c.path.clone(), xml.clone()), nontrivial);
+    st.count(&format!("gen:{}", tag));
+    st.count("records:camt053");
+    st.count(&format!("docs_matching:{}", matching_docs.min(4)));
+    for t in &c.tags {
+        st.count(&format!("camt:{}", t));
+    }
+    st.count(match &sel {
+        SelObs::None => "select:none",
+        SelObs::Err(..) => "select:invalid_config",
+        SelObs::Ok(_) => "select:ok",
+        SelObs::Panic(_) => "select:panic",
+        SelObs::Load(_) => "select:yaml_load_failed",
+    });
+    st.count(&match &imp {
+        ImpObs::NotRun => "camt_import:not_run".to_string(),
+        ImpObs::Err(..) => "camt_import:refused".to_string(),
+        ImpObs::Panic(_) => "camt_import:panic".to_string(),
+        ImpObs::Ok(..) => "camt_import:ok".to_string(),
+    });
+    st.add("shape:documents", c.docs.len() as u64);
+    st.add("shape:rules", c.docs.iter().map(|d| d.rewrite.len() as u64).sum());
+    let entries: Vec<String> = c
+        .stmt
+        .entries
+        .iter()
+        .map(|e| {
+            if e.details.is_empty() {
+                coq::list(vec![entity_term(&record_texts(e, None), &None, !e.credit)])
+            } else {
+                coq::list(e.details.iter().map(|d| entity_term(&record_texts(e, Some(d)), &d.reference, !d.credit)))
+            }
+        })
+        .collect();
+    st.add("shape:records", c.stmt.entries.iter().map(|e| e.details.len().max(1) as u64).sum());
+    let rep = json!({
+        "property": "C17",
+        "config_yaml": yaml,
+        "path": c.path,
+        "xml": xml,
+        "select": match &sel {
+            SelObs::None => json!("no document matches"),
+            SelObs::Err(_, t) | SelObs::Panic(t) | SelObs::Load(t) => json!({"error": t}),
+            SelObs::Ok(e) => json!(format!("{:?}", e)),
+        },
+        "import": imp_json(&imp),
+        "camt_case": serde_json::to_value(c).unwrap(),
+        "reproduce": "write config_yaml and xml to files (xml under `path`) and run: okane import --config <yaml> --format iso-camt053 <path>",
+    });
+    if st.samples.len() < 6 && nontrivial && st.dist.get("records:camt053").copied().unwrap_or(0) <= 40 && xml.len() < 6000 {
+        st.sample(rep.clone(), 6);
+    }
+    let term = format!("KC {} {} {} {} {}", coq::list(c.docs.iter().map(|d| d.term())), s_term(&c.path), sel_term(&sel, &pats), coq::list(entries), imp_term(&imp));
+    sh.push(term, vec![rep]);
+}
+
+pub const HEADER: &str = "From Coq Require Import List NArith ZArith QArith Qcanon.\nFrom Okv Require Import Base.Dec Model.ImpConfig Model.ImpExtract Model.ImpSingleEntry Model.ImpCsv Model.ImpCamtMatch Run.ImpPattern Run.ImpCase";
+
+fn corpus_cases(o: &Opts) -> (Vec<Case17>, Vec<Case17Camt>, bool) {
     let mut files: Vec<std::path::PathBuf> = Vec::new();
     let mut replay = false;
     if let Some(i) = o.extra.iter().position(|a| a == "--replay") {
@@ -375,6 +799,7 @@ fn corpus_cases(o: &Opts) -> (Vec<Case17>, bool) {
         files.sort();
     }
     let mut out = Vec::new();
+    let mut camt = Vec::new();
     for p in files {
         if let Ok(t) = std::fs::read_to_string(&p) {
             if let Ok(v) = serde_json::from_str::<serde_json::Value>(&t) {
@@ -383,21 +808,30 @@ fn corpus_cases(o: &Opts) -> (Vec<Case17>, bool) {
                         out.push(c);
                     }
                 }
+                if let Some(c) = v.get("camt_case") {
+                    if let Ok(c) = serde_json::from_value::<Case17Camt>(c.clone()) {
+                        camt.push(c);
+                    }
+                }
             }
         }
     }
-    (out, replay)
+    (out, camt, replay)
 }
 
 pub fn run(o: &Opts) {
     let mut st = Stats::new();
     let mut sh = Shards::new(&o.out, if o.thorough { o.shards * 6 } else { o.shards }, &format!("{} Run.Classify_C17.\nImport ListNotations.\nOpen Scope N_scope.", HEADER));
-    st.rule = "1-4 YAML documents (random subsets of encoding/account/account_type/operator/commodity/format, 0-4 rewrite rules each with single/OR-list matchers over payee/category/secondary_commodity, capture groups including ones that match the empty string on a record (`Lit(?P<payee>.*)`, `(?P<code>\\d*)`) followed by rules that tell the emptied payee from the original, payee/account/pending/conversion settings; paths drawn as substrings of the file path with frequent equal lengths, as directory prefixes with a trailing '/' where the file path continues the name with other characters (bank/ against bankcard/, bank.old/) or not, and as ./x, x//y, x/./y shapes) through load_from_yaml and ConfigSet::select; then 1-4 CSV records through import::import(Csv) under the selected entry (its `format` replaced by the harness's column layout) and Txn::to_double_entry; non-trivial = at least two documents match the path, or at least two rules hit one record; distinct by YAML + path + CSV".into();
+    st.rule = "1-4 YAML documents (random subsets of encoding/account/account_type/operator/commodity/format, 0-4 rewrite rules each with single/OR-list matchers over payee/category/secondary_commodity, capture groups including ones that match the empty string on a record (`Lit(?P<payee>.*)`, `(?P<code>\\d*)`) followed by rules that tell the emptied payee from the original, payee/account/pending/conversion settings; paths drawn as substrings of the file path with frequent equal lengths, as directory prefixes with a trailing '/' where the file path continues the name with other characters (bank/ against bankcard/, bank.old/) or not, and as ./x, x//y, x/./y shapes) through load_from_yaml and ConfigSet::select; then 1-4 CSV records through import::import(Csv) under the selected entry (its `format` replaced by the harness's column layout) and Txn::to_double_entry; one case in five has two layered documents (paths of different length, in either file order) where the longer-path document repeats a rule of the shorter-path one verbatim (now and then with one flag changed) at a later position, after a rule that rewrites the payee, and a record `w2 w1 w3` for which the second occurrence decides the account; plus (a third of the run) Camt053 records: statements of 1-3 entries without TxDtls or with 1-2 TxDtls carrying creditor / ultimate creditor / debtor / ultimate debtor names (inline or inside Pty), account ids (IBAN or Othr), remittance information, AddtlTxInf and AddtlNtryInf, AcctSvcrRef present or not, and 1-2 layered documents with 1-8 rules aimed at the records: single matchers and OR-lists of 1-3 AND elements over 1-3 of those fields and the accumulated payee, the fields written in random order, patterns that match or miss with (?P<payee>...) / (?P<code>...) groups in several fields of one element, two fifths of the rules built as `an element that captures in a field early in RewriteField order and then fails on a later field, followed by an element that matches`, follow-up rules on the payee, now and then a matcher the Camt053 importer refuses; through import::import(IsoCamt053) under the selected entry and to_double_entry, payee / code / counter account / pending mark of every transaction compared with the rule hits and with the model; non-trivial = at least two documents match the path, or at least two rules hit one record (Camt053: the import succeeded and some rule has an OR-list or a multi-field element); distinct by YAML + path + CSV / XML".into();
     st.assumptions.push("matcher patterns come from a small language (literal / [0-9]+ / \\d* / .* atoms, optional ^ $, named groups payee and code) for which leftmost-first backtracking in the model is what the regex crate computes; text is UTF-8 without line breaks".into());
+    st.assumptions.push("Camt053 rule lists do not use the bank-transaction-code matchers (domain_code, domain_family, domain_sub_family); statement texts have no outer white space (quick-xml trims) and every amount is non-zero".into());
     st.assumptions.push("file paths are valid Unicode and use '/' (on this platform PathBufExt::from_slash is the identity)".into());
-    let (corpus, replay) = corpus_cases(o);
+    let (corpus, corpus_camt, replay) = corpus_cases(o);
     for c in &corpus {
         emit(&mut sh, &mut st, c, "corpus");
+    }
+    for c in &corpus_camt {
+        emit_camt(&mut sh, &mut st, c, "corpus");
     }
     if !replay {
         let mut r = Rng::new(o.seed, 1701);
@@ -405,6 +839,12 @@ pub fn run(o: &Opts) {
         for _ in 0..n {
             let c = gen_case(&mut r);
             emit(&mut sh, &mut st, &c, "random");
+        }
+        let mut r = Rng::new(o.seed, 1702);
+        let n = if o.thorough { 6000 } else { 1000 };
+        for _ in 0..n {
+            let c = gen_camt_case(&mut r);
+            emit_camt(&mut sh, &mut st, &c, "random");
         }
     }
     sh.finish(&st);
